@@ -12,14 +12,16 @@ META = {
             "most specific source prefix, exact source port over wildcard), default filter chain only when no chain survives, "
             "Ambiguous(cfg) = two chains share a complete match tuple. Abstract 4-bit addresses plus loopback, prefix lengths "
             "{0,2,4} mapped to 0.0.0.0/0, 10.0.0.a/30, /32 and ::/0, fd00::a/126, /128. TLC enumerates one state per listener "
-            "configuration (0-1 chains over 80 match tuples, all ordered pairs over 72 tuples, pairs with multi-prefix / IPv6 / "
-            "multi-port chains, all triples over 8 (thorough: 16) tuples, with and without default chain) and checks on all 96 "
-            "lookups that unambiguous configurations never tie and that the selected chain is a most specific match (negative "
+            "configuration (0-1 chains over up to 80 match tuples, all ordered pairs over 48 (thorough: 72) tuples, pairs with "
+            "multi-prefix / IPv6 / multi-port chains, all triples over 8 (thorough: 16) tuples, with and without default chain) "
+            "and checks on all 60 (thorough: 96) abstract connections that unambiguous configurations never tie and that the "
+            "selected chain is a most specific match (negative "
             "control: least specific wins). Every configuration is turned into a real Listener proto, validated by the "
             "xdsresource listener decoder and looked up through server.newFilterChainManager + lookup with netip addresses "
             "derived as listenerWrapper.Accept does; TLC validates acceptance of ambiguous configurations and every selected "
             "chain against the reference.",
-    "note": "Decides exactly the enumerated (configuration, connection) pairs. Only listeners bound to the wildcard address "
+    "note": "Decides exactly the enumerated (configuration, connection) pairs (quick tier: every configuration, a seeded sample "
+            "of 20 connections each; thorough: 48 of 96). Only listeners bound to the wildcard address "
             "(destination prefixes are ignored by the code otherwise); chains dropped for unsupported match fields "
             "(destination_port, server_names, transport/application protocols) are not generated; rejection of an unambiguous "
             "configuration is reported as drift only (the text promises nothing about it).",
@@ -44,7 +46,10 @@ def run(ctx):
     cfgs.sort(key=lambda v: json.dumps(v, sort_keys=True))
     lks.sort(key=lambda v: json.dumps(v, sort_keys=True))
     ctx.log("inputs from TLC: %d configurations, %d lookups" % (len(cfgs), len(lks)))
-    rows = [{"kind": "lks", "lks": lks}] + [{"kind": "cfg", "cfg": c} for c in cfgs]
+    k = ctx.pick(20, 48)       # quick tier: a seeded sample of the lookups per configuration
+    rows = [{"kind": "lks", "lks": lks}]
+    for c in cfgs:
+        rows.append({"kind": "cfg", "cfg": c, "li": sorted(ctx.rng.sample(range(len(lks)), min(k, len(lks))))})
     bpath = os.path.join(ctx.run, "c49.in.ndjson")
     tpath = os.path.join(ctx.run, "c49.trace.ndjson")
     write_ndjson(bpath, rows)
